@@ -242,6 +242,9 @@ def all_upto(n):
 # --------------------------------------------------------------------------------------
 # Coq evaluation helpers
 
+COQ_TIMES = {}
+
+
 def norm(s):
     return re.sub(r"%(Z|N|nat)\b", "", s)
 
@@ -255,8 +258,10 @@ def coq_many(tag, exprs, batch=None, prelude=""):
     if batch is None:
         batch = max(1, min(60, -(-len(exprs) // (2 * NCPU))))
     groups = [exprs[i:i + batch] for i in range(0, len(exprs), batch)]
+    t0 = time.time()
     outs = coq_eval(tag, IMPORTS, [prelude + "[" + "; ".join(g) + "]" for g in groups],
                     shards=min(NCPU, len(groups)))
+    COQ_TIMES[tag] = round(COQ_TIMES.get(tag, 0) + time.time() - t0, 1)
     res = []
     for g, o in zip(groups, outs):
         t = parse_term(norm(o))
@@ -268,6 +273,42 @@ def coq_many(tag, exprs, batch=None, prelude=""):
 
 def pt(s):
     return parse_term(norm(s))
+
+
+class Plan:
+    """All Coq evaluations of a run go through ONE sharded coq_eval call (coqc start-up and
+    library loading dominate otherwise)."""
+
+    def __init__(self):
+        self.jobs, self.exprs, self.res = {}, [], None
+
+    def raw(self, key, exprs):
+        self.jobs[key] = ("raw", len(self.exprs), len(exprs), None)
+        self.exprs += exprs
+
+    def many(self, key, exprs, prelude=""):
+        batch = max(1, min(40, -(-len(exprs) // (2 * NCPU)))) if exprs else 1
+        groups = [exprs[i:i + batch] for i in range(0, len(exprs), batch)]
+        self.jobs[key] = ("many", len(self.exprs), len(groups), groups)
+        self.exprs += [prelude + "[" + "; ".join(g) + "]" for g in groups]
+
+    def run(self, tag):
+        # interleave so that every shard gets a similar mix
+        self.res = coq_eval(tag, IMPORTS, self.exprs, shards=NCPU) if self.exprs else []
+
+    def get_raw(self, key):
+        _, start, n, _ = self.jobs[key]
+        return self.res[start:start + n]
+
+    def get(self, key):
+        _, start, n, groups = self.jobs[key]
+        out = []
+        for g, o in zip(groups, self.res[start:start + n]):
+            t = parse_term(norm(o))
+            if not isinstance(t, list) or len(t) != len(g):
+                raise RuntimeError(f"coq batch size mismatch in {key}: {len(g)} vs {o[:200]}")
+            out.extend(t)
+        return out
 
 
 # --------------------------------------------------------------------------------------
@@ -763,197 +804,17 @@ def run(chk):
         pos += n
         return r
 
-    # ================================================================== model
-    flat = [("let tbl := " + TBL + " in " + e) for grp in ex_exprs for e in grp]
-    flat_res = coq_eval("C19x", IMPORTS, flat, shards=NCPU)
-    ex_model, k0 = [], 0
-    for grp in ex_exprs:
-        parts = [norm(r).strip() for r in flat_res[k0:k0 + len(grp)]]
-        k0 += len(grp)
-        ex_model.append("[" + "; ".join(p[1:-1] for p in parts if p != "[]") + "]")
-    for (kind, what, inputs), mo in zip(ex_info, ex_model):
-        got = take(len(inputs))
-        chk.coverage["evaluations"] += len(inputs)
-        chk.count(f"exhaustive.{kind}", len(inputs))
-        if kind == "stream":
-            got_v = ["(" + ", ".join(x.strip()[1:-1].split(", ")[:2]) + ")" if x != "PANIC" else x for x in got]
-        else:
-            got_v = got
-        a = norm("[" + "; ".join(got_v) + "]").replace(" ", "")
-        b = norm(mo).replace(" ", "")
-        if kind in ("enum de", "stream", "job de", "jo de") and any(x == "PANIC" for x in got):
-            j = got.index("PANIC")
-            if kind != "job de":
-                hard(f"{kind} panics on an input of length <= 2", {"what": what, "input": list(inputs[j])})
-        if a != b:
-            mt = pt(mo)
-            for j, (x, y) in enumerate(zip(got_v, mt)):
-                if x != "PANIC" and pt(x) != y:
-                    judge_small(chk, hard, soft, kind, what, inputs[j], x, y)
-                    break
-    phase("exhaustive model+compare")
-    chk.coverage["exhaustive_part"] = (
-        "all byte strings of length <= 2 (65793) as: from_bytes input of " + ", ".join(ex_types)
-        + "; argument bytes of variants " + ", ".join(HMSG[i][0] for i in ex_variants)
-        + "; job metadata; JobOptions bytes; whole stream. Length <= 1 for the remaining types/variants.")
+    # ================================================================== slice the answers
+    ans = {"ex": [take(len(inputs)) for (_, _, inputs) in ex_info]}
+    for g in groups:
+        ans[g.kind] = take(len(g.lines))
+    ans["stream"] = take(len(st_index))
+    ans["sreader"] = take(len(sr_index))
+    if pos != len(impl):
+        raise RuntimeError(f"internal: consumed {pos} of {len(impl)} harness answers")
 
-    # oracle helper definitions are evaluated as plain expressions (no extra Coq file)
-    LET = "let tbl := " + TBL + " in "
-
-    def model_of(g):
-        idx = [i for i, m in enumerate(g.models) if m is not None]
-        vals = coq_many("C19" + g.kind.replace(" ", ""), [g.models[i] for i in idx], prelude=LET)
-        out = [None] * len(g.models)
-        for i, v in zip(idx, vals):
-            out[i] = v
-        return out
-
-    # ---- bc dec
-    got, mod = take(len(bc_dec.lines)), model_of(bc_dec)
-    for (t, b), x, y in zip(bc_dec.meta, got, mod):
-        chk.coverage["evaluations"] += 1
-        chk.count("bc_dec." + ("ok" if x != "None" else "panic"))
-        distinct.add(("d", t, b))
-        if pt(x) != y:
-            soft("BytesConvertable::from_bytes differs from the model",
-                 {"type": t, "bytes": list(b), "impl": x, "model": show_term(y)})
-    # ---- bc rt (round-trip clause)
-    got, mod = take(len(bc_rt.lines)), model_of(bc_rt)
-    oracle = coq_many("C19rt", [
-        f"check_C19_roundtrip {val_coq(t, v)} ({('None' if 'PANIC' in x else split_pair(x)[1])})"
-        for (t, v), x in zip(bc_rt.meta, got)])
-    for (t, v), x, y, o in zip(bc_rt.meta, got, mod, oracle):
-        chk.coverage["evaluations"] += 1
-        chk.count("bc_rt." + t)
-        distinct.add(("r", t, str(v)))
-        d = {"type": t, "value": v if not isinstance(v, bytes) else list(v), "impl (bytes, back)": x,
-             "model": show_term(y)}
-        if o != "true":
-            hard("round trip fails: from_bytes(into_bytes(v)) != v", d)
-        elif pt(x) != y:
-            soft("encoding differs from the model", d)
-        if len(samples) < 2 and t in ("i128", "vchar"):
-            samples.append(d)
-    # ---- enum de
-    got, mod = take(len(en_de.lines)), model_of(en_de)
-    for (kind, tagb, args), x, y in zip(en_de.meta, got, mod):
-        chk.coverage["evaluations"] += 1
-        model_ans, framing_ok = y[1], y[2]
-        chk.count("enum_de." + ("ok" if model_ans != "None" else ("badframing" if framing_ok == "false" else "badfield")))
-        distinct.add(("e", kind, tagb, args))
-        d = {"kind": kind, "variant": tagb.decode(errors="replace"), "args": list(args), "impl": x,
-             "model": show_term(model_ans), "framing_ok": framing_ok}
-        if x == "PANIC":
-            hard("generated decoder panics instead of returning an error", d)
-        elif pt(x) != model_ans:
-            if x != "None" and framing_ok == "false":
-                hard("generated decoder accepts a payload with unknown variant / short or trailing bytes", d)
-            else:
-                soft("generated decoder differs from the model", d)
-    # ---- enum rt
-    got, mod = take(len(en_rt.lines)), model_of(en_rt)
-    oracle = coq_many("C19ert", [
-        f"check_C19_enum_roundtrip {i} {fields_coq(i, vs)} ({split_pair(x)[1] if 'PANIC' not in x else 'None'})"
-        for (i, vs), x in zip(en_rt.meta, got)])
-    for (i, vs), x, y, o in zip(en_rt.meta, got, mod, oracle):
-        chk.coverage["evaluations"] += 1
-        chk.count("enum_rt." + HMSG[i][0])
-        distinct.add(("er", i, str(vs)))
-        d = {"variant": HMSG[i][0], "fields": str(vs), "impl (serialized, back)": x, "model": show_term(y)}
-        if "PANIC" in x:
-            hard("generated (de)serializer panics on a well-formed value", d)
-        elif o != "true":
-            hard("round trip fails: deserialize(serialize(v)) != v", d)
-        elif pt(x) != y:
-            soft("serialized form differs from the model", d)
-        if len(samples) < 4 and i in (8, 2):
-            samples.append(d)
-    # ---- JobOptions round trip (F5)
-    got, mod = take(len(jo_rt.lines)), model_of(jo_rt)
-    for (s, ttl), x, y in zip(jo_rt.meta, got, mod):
-        chk.coverage["evaluations"] += 1
-        t = pt(x)   # (orig, enc, back)
-        d = {"submit": s, "ttl_ns": ttl, "impl (original, bytes, back)": x}
-        if "PANIC" in x:
-            hard("JobOptions conversion panics on a well-formed value", d)
-            continue
-        orig, back = t[1], t[3]
-        sig = opts_signature(orig, back)
-        chk.count("jo_rt." + (sig or "ok"))
-        distinct.add(("jo", s, ttl))
-        if sig is not None:
-            report_opts(chk, hard, sig, d)
-        elif y is not None and ("tuple", t[2], t[3]) != y:
-            soft("JobOptions encoding differs from the model", dict(d, model=show_term(y)))
-    # ---- JobOptions decode of arbitrary bytes
-    got, mod = take(len(jo_de.lines)), model_of(jo_de)
-    for b, x, y in zip(jo_de.meta, got, mod):
-        chk.coverage["evaluations"] += 1
-        distinct.add(("jd", b))
-        if x == "PANIC":
-            hard("JobOptions::from_bytes panics", {"bytes": list(b)})
-        elif pt(x) != y:
-            soft("JobOptions::from_bytes differs from the model", {"bytes": list(b), "impl": x, "model": show_term(y)})
-    # ---- job de
-    got, mod = take(len(job_de.lines)), model_of(job_de)
-    for (k, kind, tagb, args, meta), x, y in zip(job_de.meta, got, mod):
-        chk.coverage["evaluations"] += 1
-        model_ans, meta_ok = y[1], y[2]
-        head = model_ans if isinstance(model_ans, str) else model_ans[0]
-        chk.count("job_de." + head)
-        distinct.add(("j", k, kind, tagb, args, meta))
-        d = {"key_type": k, "kind": kind, "variant": tagb.decode(errors="replace"), "args": list(args),
-             "metadata": None if meta is None else list(meta), "impl": x, "model": show_term(model_ans)}
-        if pt(x) != model_ans:
-            if x.startswith("JOk") and meta_ok == "false":
-                hard("job decoder accepts bad metadata", d)
-            else:
-                soft("Job::deserialize differs from the model", d)
-    # ---- job rt
-    got, mod = take(len(job_rt.lines)), model_of(job_rt)
-    for (k, key, s, ttl, i, vs), x, y in zip(job_rt.meta, got, mod):
-        chk.coverage["evaluations"] += 1
-        d = {"key_type": k, "key": str(key), "submit": s, "ttl_ns": ttl, "variant": HMSG[i][0], "fields": str(vs),
-             "impl (options, serialized, back)": x, "model back": show_term(y)}
-        if "PANIC" in x or "SER_" in x or "JErr" in x:
-            hard("Job (de)serialization fails on a well-formed value", d)
-            continue
-        t = pt(x)
-        back = t[3]   # JOk key (JOpts o) i vs
-        orig = t[1]
-        sig = opts_signature(orig, back[2])
-        chk.count("job_rt." + (sig or "ok"))
-        distinct.add(("jr", k, str(key), s, ttl, i, str(vs)))
-        want_key, want_fields = pt(val_coq(k, key)), pt(fields_coq(i, vs))
-        if back[0] != "JOk" or back[1] != want_key or back[3] != i or back[4] != want_fields:
-            hard("round trip fails: Job::deserialize(Job::serialize(j)) != j", d)
-        elif sig is not None:
-            report_opts(chk, hard, sig, d)
-        elif back != y:
-            soft("Job round trip differs from the model", d)
-    # ---- live actors
-    got, mod = take(len(actor.lines)), model_of(actor)
-    for (who, msgs), x, y in zip(actor.meta, got, mod):
-        chk.coverage["evaluations"] += 1
-        t = pt(x)
-        alive, sent, handled = t[1], t[2], t[3]
-        chk.count("actor." + who.split(":")[0])
-        chk.count("actor.dropped_messages", len(msgs) - len(handled))
-        distinct.add(("a", who, str(msgs)))
-        d = {"actor": who, "messages": [smsg_actor(*m) for m in msgs], "impl (alive, sent, handled)": x,
-             "model handled": show_term(y)}
-        if alive != "true":
-            hard("an undecodable payload harmed the receiving actor (it is no longer running)", d)
-        elif not handled or handled[-1] != y[-1]:
-            hard("the actor no longer handles a well-formed message after undecodable ones", d)
-        elif handled != y:
-            soft("messages handled by the live actor differ from the model", d)
-        if len(samples) < 5:
-            samples.append(d)
-
-    phase("codec model+compare")
-    # ---- streams
-    got = take(len(st_index))
+    # ---- streams: translate the implementation's answers, build oracle + model expressions
+    got = ans['stream']
     per_case = {}
     for (ci, si), x in zip(st_index, got):
         per_case.setdefault(ci, []).append((si, x))
@@ -993,8 +854,207 @@ def run(chk):
         sizes = c["splits"][len(c["splits"]) // 2]
         ch = "[" + "; ".join(blist(x) for x in chunks_of(data, sizes)) + "]"
         exprs_model.append(f"[run {maxv} {vt} [{blist(data)}]; run {maxv} {vt} {ch}]")
-    o_res = coq_many("C19so", exprs_oracle)
-    m_res = coq_many("C19sm", exprs_model)
+
+    # ================================================================== model + oracles: one Coq run
+    LET = "let tbl := " + TBL + " in "
+    plan = Plan()
+    plan.raw("x", [(LET + e) for grp in ex_exprs for e in grp])
+    for g in groups:
+        plan.many(g.kind, [m for m in g.models if m is not None], prelude=LET)
+    plan.many("rt oracle", [
+        f"check_C19_roundtrip {val_coq(t, v)} ({('None' if 'PANIC' in x else split_pair(x)[1])})"
+        for (t, v), x in zip(bc_rt.meta, ans["bc rt"])])
+    plan.many("ert oracle", [
+        f"check_C19_enum_roundtrip {i} {fields_coq(i, vs)} ({split_pair(x)[1] if 'PANIC' not in x else 'None'})"
+        for (i, vs), x in zip(en_rt.meta, ans["enum rt"])])
+    plan.many("stream oracle", exprs_oracle)
+    plan.many("stream model", exprs_model)
+    plan.run("C19")
+    phase("coq")
+    flat_res = plan.get_raw("x")
+    ex_model, k0 = [], 0
+    for grp in ex_exprs:
+        parts = [norm(r).strip() for r in flat_res[k0:k0 + len(grp)]]
+        k0 += len(grp)
+        ex_model.append("[" + "; ".join(p[1:-1] for p in parts if p != "[]") + "]")
+    ex_answers = iter(ans["ex"])
+    for (kind, what, inputs), mo in zip(ex_info, ex_model):
+        got = next(ex_answers)
+        chk.coverage["evaluations"] += len(inputs)
+        chk.count(f"exhaustive.{kind}", len(inputs))
+        if kind == "stream":
+            got_v = ["(" + ", ".join(x.strip()[1:-1].split(", ")[:2]) + ")" if x != "PANIC" else x for x in got]
+        else:
+            got_v = got
+        a = norm("[" + "; ".join(got_v) + "]").replace(" ", "")
+        b = norm(mo).replace(" ", "")
+        if kind in ("enum de", "stream", "job de", "jo de") and any(x == "PANIC" for x in got):
+            j = got.index("PANIC")
+            if kind != "job de":
+                hard(f"{kind} panics on an input of length <= 2", {"what": what, "input": list(inputs[j])})
+        if a != b:
+            mt = pt(mo)
+            for j, (x, y) in enumerate(zip(got_v, mt)):
+                if x != "PANIC" and pt(x) != y:
+                    judge_small(chk, hard, soft, kind, what, inputs[j], x, y)
+                    break
+    phase("exhaustive model+compare")
+    chk.coverage["exhaustive_part"] = (
+        "all byte strings of length <= 2 (65793) as: from_bytes input of " + ", ".join(ex_types)
+        + "; argument bytes of variants " + ", ".join(HMSG[i][0] for i in ex_variants)
+        + "; job metadata; JobOptions bytes; whole stream. Length <= 1 for the remaining types/variants.")
+
+    def model_of(g):
+        idx = [i for i, m in enumerate(g.models) if m is not None]
+        vals = plan.get(g.kind)
+        out = [None] * len(g.models)
+        for i, v in zip(idx, vals):
+            out[i] = v
+        return out
+
+    # ---- bc dec
+    got, mod = ans[bc_dec.kind], model_of(bc_dec)
+    for (t, b), x, y in zip(bc_dec.meta, got, mod):
+        chk.coverage["evaluations"] += 1
+        chk.count("bc_dec." + ("ok" if x != "None" else "panic"))
+        distinct.add(("d", t, b))
+        if pt(x) != y:
+            soft("BytesConvertable::from_bytes differs from the model",
+                 {"type": t, "bytes": list(b), "impl": x, "model": show_term(y)})
+    # ---- bc rt (round-trip clause)
+    got, mod = ans[bc_rt.kind], model_of(bc_rt)
+    oracle = plan.get("rt oracle")
+    for (t, v), x, y, o in zip(bc_rt.meta, got, mod, oracle):
+        chk.coverage["evaluations"] += 1
+        chk.count("bc_rt." + t)
+        distinct.add(("r", t, str(v)))
+        d = {"type": t, "value": v if not isinstance(v, bytes) else list(v), "impl (bytes, back)": x,
+             "model": show_term(y)}
+        if o != "true":
+            hard("round trip fails: from_bytes(into_bytes(v)) != v", d)
+        elif pt(x) != y:
+            soft("encoding differs from the model", d)
+        if len(samples) < 2 and t in ("i128", "vchar"):
+            samples.append(d)
+    # ---- enum de
+    got, mod = ans[en_de.kind], model_of(en_de)
+    for (kind, tagb, args), x, y in zip(en_de.meta, got, mod):
+        chk.coverage["evaluations"] += 1
+        model_ans, framing_ok = y[1], y[2]
+        chk.count("enum_de." + ("ok" if model_ans != "None" else ("badframing" if framing_ok == "false" else "badfield")))
+        distinct.add(("e", kind, tagb, args))
+        d = {"kind": kind, "variant": tagb.decode(errors="replace"), "args": list(args), "impl": x,
+             "model": show_term(model_ans), "framing_ok": framing_ok}
+        if x == "PANIC":
+            hard("generated decoder panics instead of returning an error", d)
+        elif pt(x) != model_ans:
+            if x != "None" and framing_ok == "false":
+                hard("generated decoder accepts a payload with unknown variant / short or trailing bytes", d)
+            else:
+                soft("generated decoder differs from the model", d)
+    # ---- enum rt
+    got, mod = ans[en_rt.kind], model_of(en_rt)
+    oracle = plan.get("ert oracle")
+    for (i, vs), x, y, o in zip(en_rt.meta, got, mod, oracle):
+        chk.coverage["evaluations"] += 1
+        chk.count("enum_rt." + HMSG[i][0])
+        distinct.add(("er", i, str(vs)))
+        d = {"variant": HMSG[i][0], "fields": str(vs), "impl (serialized, back)": x, "model": show_term(y)}
+        if "PANIC" in x:
+            hard("generated (de)serializer panics on a well-formed value", d)
+        elif o != "true":
+            hard("round trip fails: deserialize(serialize(v)) != v", d)
+        elif pt(x) != y:
+            soft("serialized form differs from the model", d)
+        if len(samples) < 4 and i in (8, 2):
+            samples.append(d)
+    # ---- JobOptions round trip (F5)
+    got, mod = ans[jo_rt.kind], model_of(jo_rt)
+    for (s, ttl), x, y in zip(jo_rt.meta, got, mod):
+        chk.coverage["evaluations"] += 1
+        t = pt(x)   # (orig, enc, back)
+        d = {"submit": s, "ttl_ns": ttl, "impl (original, bytes, back)": x}
+        if "PANIC" in x:
+            hard("JobOptions conversion panics on a well-formed value", d)
+            continue
+        orig, back = t[1], t[3]
+        sig = opts_signature(orig, back)
+        chk.count("jo_rt." + (sig or "ok"))
+        distinct.add(("jo", s, ttl))
+        if sig is not None:
+            report_opts(chk, hard, sig, d)
+        elif y is not None and ("tuple", t[2], t[3]) != y:
+            soft("JobOptions encoding differs from the model", dict(d, model=show_term(y)))
+    # ---- JobOptions decode of arbitrary bytes
+    got, mod = ans[jo_de.kind], model_of(jo_de)
+    for b, x, y in zip(jo_de.meta, got, mod):
+        chk.coverage["evaluations"] += 1
+        distinct.add(("jd", b))
+        if x == "PANIC":
+            hard("JobOptions::from_bytes panics", {"bytes": list(b)})
+        elif pt(x) != y:
+            soft("JobOptions::from_bytes differs from the model", {"bytes": list(b), "impl": x, "model": show_term(y)})
+    # ---- job de
+    got, mod = ans[job_de.kind], model_of(job_de)
+    for (k, kind, tagb, args, meta), x, y in zip(job_de.meta, got, mod):
+        chk.coverage["evaluations"] += 1
+        model_ans, meta_ok = y[1], y[2]
+        head = model_ans if isinstance(model_ans, str) else model_ans[0]
+        chk.count("job_de." + head)
+        distinct.add(("j", k, kind, tagb, args, meta))
+        d = {"key_type": k, "kind": kind, "variant": tagb.decode(errors="replace"), "args": list(args),
+             "metadata": None if meta is None else list(meta), "impl": x, "model": show_term(model_ans)}
+        if pt(x) != model_ans:
+            if x.startswith("JOk") and meta_ok == "false":
+                hard("job decoder accepts bad metadata", d)
+            else:
+                soft("Job::deserialize differs from the model", d)
+    # ---- job rt
+    got, mod = ans[job_rt.kind], model_of(job_rt)
+    for (k, key, s, ttl, i, vs), x, y in zip(job_rt.meta, got, mod):
+        chk.coverage["evaluations"] += 1
+        d = {"key_type": k, "key": str(key), "submit": s, "ttl_ns": ttl, "variant": HMSG[i][0], "fields": str(vs),
+             "impl (options, serialized, back)": x, "model back": show_term(y)}
+        if "PANIC" in x or "SER_" in x or "JErr" in x:
+            hard("Job (de)serialization fails on a well-formed value", d)
+            continue
+        t = pt(x)
+        back = t[3]   # JOk key (JOpts o) i vs
+        orig = t[1]
+        sig = opts_signature(orig, back[2])
+        chk.count("job_rt." + (sig or "ok"))
+        distinct.add(("jr", k, str(key), s, ttl, i, str(vs)))
+        want_key, want_fields = pt(val_coq(k, key)), pt(fields_coq(i, vs))
+        if back[0] != "JOk" or back[1] != want_key or back[3] != i or back[4] != want_fields:
+            hard("round trip fails: Job::deserialize(Job::serialize(j)) != j", d)
+        elif sig is not None:
+            report_opts(chk, hard, sig, d)
+        elif back != y:
+            soft("Job round trip differs from the model", d)
+    # ---- live actors
+    got, mod = ans[actor.kind], model_of(actor)
+    for (who, msgs), x, y in zip(actor.meta, got, mod):
+        chk.coverage["evaluations"] += 1
+        t = pt(x)
+        alive, sent, handled = t[1], t[2], t[3]
+        chk.count("actor." + who.split(":")[0])
+        chk.count("actor.dropped_messages", len(msgs) - len(handled))
+        distinct.add(("a", who, str(msgs)))
+        d = {"actor": who, "messages": [smsg_actor(*m) for m in msgs], "impl (alive, sent, handled)": x,
+             "model handled": show_term(y)}
+        if alive != "true":
+            hard("an undecodable payload harmed the receiving actor (it is no longer running)", d)
+        elif not handled or handled[-1] != y[-1]:
+            hard("the actor no longer handles a well-formed message after undecodable ones", d)
+        elif handled != y:
+            soft("messages handled by the live actor differ from the model", d)
+        if len(samples) < 5:
+            samples.append(d)
+
+    phase("codec model+compare")
+    # ---- streams (judgement)
+    o_res = plan.get("stream oracle")
+    m_res = plan.get("stream model")
     for (ci, answers, raw_answers, uniq), o, m in zip(prepared, o_res, m_res):
         c = stream_cases[ci]
         data, maxv = c["data"], c["max"]
@@ -1026,7 +1086,7 @@ def run(chk):
             samples.append(d)
 
     # ---- the real SessionReader actor
-    got = take(len(sr_index))
+    got = ans['sreader']
     for ci, x in zip(sr_index, got):
         c = stream_cases[ci]
         chk.coverage["evaluations"] += 1
@@ -1054,8 +1114,6 @@ def run(chk):
             soft("session reader differs from the model", d)
 
     phase("stream model+compare")
-    if pos != len(impl):
-        raise RuntimeError(f"internal: consumed {pos} of {len(impl)} harness answers")
     chk.coverage["traces_validated_against_impl"] = chk.coverage["evaluations"]
     chk.coverage["distinct_nontrivial"] = len(distinct)
     chk.coverage["rule"] = (
